@@ -1746,8 +1746,8 @@ package grpctunnel
 //@ func (*ReverseTunnelServer).addInstance
 //@   locks s.mu
 //@   assigns nothing
-//@   ensures[C10] @refuse  old(s.state) >= 1 ==> isStatus(result, codes.Unavailable) && count("wg.Add") == 0 && s.instances == old(s.instances)
-//@   ensures[C10] @accept  old(s.state) == 0 ==> result == nil && count("wg.Add") == 1 && has(s.instances, stream)
+//@   ensures[C04,C10,C15] @refuse  old(s.state) >= 1 ==> isStatus(result, codes.Unavailable) && count("wg.Add") == 0 && s.instances == old(s.instances)
+//@   ensures[C04,C10,C15] @accept  old(s.state) == 0 ==> result == nil && count("wg.Add") == 1 && has(s.instances, stream)
 //@   ensures[C10] @forward s.state == old(s.state)
 //@   nopanic[C09]
 
